@@ -124,4 +124,53 @@ theorem profile_double_charge_counterexample :
      byName cxLoad.req "GPU" = 1) := by
   decide +kernel
 
+/-! ### "the pool a RUNNING task is resident in is the pool recorded in the task" is FALSE of the
+current model (and the model disagrees with /repo on this input: a model-fidelity finding)
+
+When one scheduler answer places the same task twice, `__create_events_from_task_placement` re-schedules the
+task and mutates the cached TASK_PLACEMENT event *object* — which at that moment is still in the local list
+`simulator_events`, not in the queue. `Model/Sim.lean` edits queued events only (`editEvent`), so in the model
+the event keeps the first placement while the task records the second one's pool. /repo places the task in the
+pool of the second placement (checked with the end-to-end correspondence, see `docs/ledger_run.md`). -/
+
+def cxStrat3 : Strategy := ⟨0, false, 1, 5, [(⟨"GPU", none⟩, 1)]⟩
+
+/-- Two one-GPU pools, one task released at 0; the first scheduler answer places it at time 2 on pool 0 and,
+in the same answer, on pool 1. -/
+def cxWorld3 : SimS :=
+  let w : Worker := Worker.ofVec [(⟨"GPU", some 1⟩, 1)]
+  let tk : TaskS :=
+    { name := "a", conditional := false, terminal := false, prob := 1000, strategies := [cxStrat3], profile := 0,
+      deadline := 100, release := 0, intendedRelease := 0 }
+  let g : GraphS := { name := "g", tasks := #[tk], children := #[[]], parents := #[[]], topo := [0] }
+  { flags := { loopTimeout := 1000 }, jobs := #[⟨"j", false, 0, 0, g, 5⟩], allGraphs := #[g], allMeta := #[⟨0, 0, 5⟩],
+    pools := #[⟨[w], []⟩, ⟨[w], []⟩], poolNames := #["p0", "p1"], tape := [.fuzz 5, .fuzz 5],
+    decisions := [⟨[{ kind := .place, task := ⟨0, 0⟩, time := some 2, pool := some 0, strat := some cxStrat3 },
+                    { kind := .place, task := ⟨0, 0⟩, time := some 2, pool := some 1, strat := some cxStrat3 }], 1, none⟩,
+                  ⟨[], 1, none⟩, ⟨[], 1, none⟩, ⟨[], 1, none⟩] }
+
+/-- The two placements of the first answer, processed as `__handle_scheduler_finish` does: the events of all
+placements are collected first and queued afterwards. -/
+def cxTwice : SimM Unit := do
+  let e1 ← placementEvents 1 { kind := .place, task := ⟨0, 0⟩, time := some 2, pool := some 0, strat := some cxStrat3 }
+  let e2 ← placementEvents 1 { kind := .place, task := ⟨0, 0⟩, time := some 2, pool := some 1, strat := some cxStrat3 }
+  for e in e1 ++ e2 do addEvent e
+
+/-- `cxWorld3` after the loader handed over its task graph. -/
+def cxState3 : SimS := { cxWorld3 with graphs := cxWorld3.allGraphs, metas := cxWorld3.allMeta, loaderReleased := true }
+
+set_option maxRecDepth 100000 in
+/-- **COUNTEREXAMPLE (current model): the queued TASK_PLACEMENT event and the task disagree on the pool.**
+After the two placements of one answer for the same task, the only queued event places the task on pool 0 while
+the task is SCHEDULED with `pool = some 1`: `__handle_task_placement` will make it resident in pool 0, and
+`__handle_task_finished` will try to remove it from pool 1. (`#eval` of the whole run of `cxWorld3`: after 9
+loop iterations the task is RUNNING, resident in pool 0 only, `task.pool = some 1`; the run aborts with
+ValueError at time 7. The whole run is not evaluated in the kernel here: `get_schedulable_tasks` of the graph
+model does not reduce by `decide`.) -/
+theorem duplicate_placement_model_counterexample :
+    let s := ((ExceptT.run cxTwice).run cxState3).2
+    s.queue.toList.map (fun e => (e.ev.etype, e.placement.bind (·.pool))) = [(ET.taskPlacement, some 0)] ∧
+    (taskAt s.graphs ⟨0, 0⟩).map (fun x => (decide (x.state = .scheduled), x.pool)) = some (true, some 1) := by
+  decide +kernel
+
 end ErdosVerif.C01
